@@ -99,7 +99,7 @@ def install(eng):
     M(r'^<.*as std::default::Default>::default$', lambda e, st, fr, f, a, m: NotImplemented)
     # formatting / printing: empty bodies
     M(r'^std::fmt::Arguments::(<.*>::)?(new|from_str|new_const|new_v1|new_v1_formatted)', lambda e, st, fr, f, a, m: one(st, Opaque('fmtargs')))
-    M(r'core::fmt::rt::Argument::new_(display|debug|lower_exp)', lambda e, st, fr, f, a, m: one(st, Opaque('fmtarg')))
+    M(r'core::fmt::rt::Argument::(<.*>::)?new_(display|debug|lower_exp)', lambda e, st, fr, f, a, m: one(st, Opaque('fmtarg')))
     M(r'^std::io::_print$|^std::io::_eprint$', lambda e, st, fr, f, a, m: one(st, UNIT))
     M(r'^std::fmt::format$|alloc::fmt::format', lambda e, st, fr, f, a, m: one(st, Opaque('string')))
     def panic_fmt(e, st, fr, f, a, m):
@@ -389,6 +389,12 @@ def install(eng):
             eng.write_ref(cur, ref, VecV.dense(items)); outs.append((cur, UNIT))
         return outs
     M(r'^std::slice::<impl \[.*\]>::sort_by$|core::slice::<impl \[.*\]>::sort_by$', sort_by)
+    def slice_get(e, st, fr, f, a, m):
+        v = D(st, a[0]); i = a[1]
+        if isz(i): raise Inconclusive('symbolic index in get')
+        if isinstance(v, VecV) and not v.is_dense(): raise Inconclusive('get on a guarded Vec')
+        return one(st, Some(a[0].sub(int(i))) if 0 <= int(i) < len(v.items) else NONE())
+    M(r'core::slice::<impl \[.*\]>::get$|^std::vec::Vec::<.*>::get$', slice_get)
     def arr_index(e, st, fr, f, a, m):
         r, i = a
         if isz(i):
